@@ -548,7 +548,7 @@ def run_bounded(prop, repo, seed, tier):
     env['PYVC_REPO'] = repo
     n = 60 if tier == 'quick' else 600
     p = subprocess.run([VENV_PY, '-m', 'pyvc.replay', '--bounded', prop, '--n', str(n), '--seed', str(seed)],
-                       capture_output=True, text=True, env=env, cwd=HERE, timeout=1800)
+                       capture_output=True, text=True, env=env, cwd=HERE, timeout=1800 if tier == 'quick' else 5400)   # C06's chord recursion: ~20 min at n=600
     try:
         return json.loads(p.stdout.strip().split('\n')[-1])
     except Exception:
